@@ -113,11 +113,11 @@ impl Prop for C01Prop {
         let mut case = Case::new("C01", seed, specs);
         {
             let mut hr = Rng::new(seed, "config.huge");
-            if hr.chance(1, 6000) {
+            if hr.chance(1, 1500) {
                 // a graph of thousands of edges (strategy thresholds), then a short tail
                 let regime = gen::regime_any2(&mut hr, true, true);
                 let mut wr = Rng::new(seed, "workload.huge");
-                case.ops = gen::gen_huge_history(&mut wr, specs, regime, false);
+                case.ops = gen::gen_huge_history_v(&mut wr, specs, regime, false, &[0, 0, 1, 2]);
                 case.params.put("source", crate::core::json::J::s("history loading thousands of edges"));
                 case.envs = vec![Env { keying: if hr.chance(1, 2) { 0 } else { seed | 1 }, pool: if hr.chance(1, 8) { 1 } else { 2 + hr.below(15) }, sched: crate::core::rng::mix(seed, 78) }];
                 return case;
@@ -148,7 +148,7 @@ impl Prop for C01Prop {
         }
     }
     fn rule(&self) -> String {
-        "lifecycle histories (0-40 ops over add_node/add_nodes/add_edge/add_edge_tuple/add_edges/add_edge_tuples/new_from_nodes_and_edges) stratified over all 96 GraphSpecs, 3-8 names whose sort order differs from insertion order, batches built to fail at a chosen element; each history runs under 2 hash keyings; after EVERY op: outcome kind, full state (node list in order with attributes, edge multiset with weight bits and attributes) vs the reference model, failure atomicity vs the real pre-state, batch prefix. distinct_nontrivial = distinct (specs, history) pairs with >= 1 rejected op and >= 1 stored edge at the end; one case in 6000 loads 2 100 - 12 500 edges (one to three batches or the constructor, same edge values re-submitted on multi-edge graphs) into 45-180 nodes and continues with a short tail (strategy thresholds)".into()
+        "lifecycle histories (0-40 ops over add_node/add_nodes/add_edge/add_edge_tuple/add_edges/add_edge_tuples/new_from_nodes_and_edges) stratified over all 96 GraphSpecs, 3-8 names whose sort order differs from insertion order, batches built to fail at a chosen element; each history runs under 2 hash keyings; after EVERY op: outcome kind, full state (node list in order with attributes, edge multiset with weight bits and attributes) vs the reference model, failure atomicity vs the real pre-state, batch prefix. distinct_nontrivial = distinct (specs, history) pairs with >= 1 rejected op and >= 1 stored edge at the end; one case in 1500 loads 2 100 - 12 500 edges (one to three batches or the constructor, same edge values re-submitted on multi-edge graphs) into 45-180 nodes and continues with a short tail (strategy thresholds); the large histories come in variants: dense (45-180 nodes), 2 048 - 2 600 nodes declared in one call with a few names repeated, a hub with 1 100 - 1 600 neighbours whose pairs receive second edges in a later call; in half of them a load of 260-420 edges into ANOTHER graph is rejected part-way on the same thread first (fault, then recovery, at scale)".into()
     }
     fn assumptions(&self) -> Vec<String> {
         vec![
